@@ -23,6 +23,12 @@ CHECKS.update({
    text='decode_image_ext, size_bytes_ext, first_dynamic_member_at_wire_block_end, entry_stride (flat: header end + i*wire blockLength), entry_chain (nested). Correspondence: images whose root and per-group-instance block lengths exceed the compiled ones by 0,1,7,8 bytes, decoded by random access and cursor; sizes compared with the image length.',
    note='As C02. Known finding C03-empty-message-cursor-size (cursor-based size of a member-less message).'),
 })
+CHECKS.update({
+ 'C01': dict(
+   technique='Lean 4 proof by mutual structural induction (in-order encode = wire image with gaps from previous contents; frame) + Layer R: scripted encodes through the generated setters of real sbeppc output on pre-filled buffers, byte-compared with the specification',
+   text='encode_image / encode_end / encode_outside_untouched: for every layout and value tree (any nesting, counts, data lengths) the in-order encode of v over previous contents mid inside pre++mid++post leaves pre ++ image(fill v mid) ++ post and stops at the image end; setter_writes_value / setter_frame: with leaves in validator order every leaf holds its value and every non-leaf byte keeps its previous value; scalar_roundtrip for the byte order. Correspondence: 32 (quick) / 200 (thorough) generated schemas -> real sbeppc -> generated driver executing fill_message_header, every setter (random access and cursor), fill_group_header, data assign_range on random pre-filled buffers; every byte compared.',
+   note='Trusted: Lean kernel; Spec.encL as the meaning of the script and the resolver model are tied to the code only by the differential check; leaf order (Sorted) is a hypothesis. Messages whose blockLength does not fit the header member are skipped (C07 matter).'),
+})
 NOT_APPLICABLE = {}
 
 ALL = ['C%02d' % i for i in range(1, 21)]
